@@ -61,16 +61,16 @@ static void t2_setup(int connected, size_t qmax) {
 	t2_first = t2_first0 = 0; t2_qlen = nondet_size(); __CPROVER_assume(t2_qlen <= qmax && qmax <= T2_QMAX); t2_qlen0 = t2_qlen;
 	for (i = 0; i < T2_QMAX; i++) {
 		t2_rawp[i] = malloc(T2_RAW); __CPROVER_assume(t2_rawp[i] != NULL);
-		t2_h[i].raw = t2_rawp[i]; t2_h[i].len = t2_len0[i] = nondet_size(); t2_h[i].state = t2_state0[i] = nondet_int();
-		t2_h[i].sentCount = t2_sent0[i] = nondet_size(); t2_h[i].reqTime = t2_reqTime0[i] = t2_nondet_time(); t2_h[i].sndTime = 0; t2_h[i].err = 0; t2_h[i].errExt = 0; t2_h[i].errMsg = NULL; t2_h[i].ctx = NULL;
-		__CPROVER_assume(t2_h[i].len >= 1 && t2_h[i].len <= T2_RAW && t2_h[i].sentCount < t2_h[i].len);
+		T2H(i).raw = t2_rawp[i]; T2H(i).len = t2_len0[i] = nondet_size(); T2H(i).state = t2_state0[i] = nondet_int();
+		T2H(i).sentCount = t2_sent0[i] = nondet_size(); T2H(i).reqTime = t2_reqTime0[i] = t2_nondet_time(); T2H(i).sndTime = 0; T2H(i).err = 0; T2H(i).errExt = 0; T2H(i).errMsg = NULL; T2H(i).ctx = NULL;
+		__CPROVER_assume(T2H(i).len >= 1 && T2H(i).len <= T2_RAW && T2H(i).sentCount < T2H(i).len);
 		/* cursor invariant: only the head request of an ESTABLISHED connection, still waiting for dispatch, may be partly written */
-		if (i != 0 || connected != 2 || t2_h[i].state != KSI_ASYNC_STATE_WAITING_FOR_DISPATCH) __CPROVER_assume(t2_h[i].sentCount == 0);
+		if (i != 0 || connected != 2 || T2H(i).state != KSI_ASYNC_STATE_WAITING_FOR_DISPATCH) __CPROVER_assume(T2H(i).sentCount == 0);
 	}
-	t2_wire_partial = (connected == 2 && t2_qlen > 0) ? t2_h[0].sentCount : 0;
+	t2_wire_partial = (connected == 2 && t2_qlen > 0) ? T2H(0).sentCount : 0;
 }
 
-static size_t t2_head_cursor(void) { size_t k, r = 0; for (k = 0; k < T2_QMAX; k++) if (t2_qlen > 0 && k == t2_first) r = t2_h[k].sentCount; return r; }
+static size_t t2_head_cursor(void) { size_t k, r = 0; for (k = 0; k < T2_QMAX; k++) if (t2_qlen > 0 && k == t2_first) r = T2H(k).sentCount; return r; }
 static _Bool t2_queued(size_t i) { return i >= t2_first && i < t2_first + t2_qlen; }
 
 /* Inv after the call + exactly-once accounting of the queue */
@@ -89,21 +89,21 @@ static void t2_check_inv(void) {
 			__CPROVER_assert(t2_released[i] == t2_removed[i], "queue: the queue's reference to a request is released exactly once, when it leaves");
 			__CPROVER_assert(t2_sent0[i] + t2_written[i] <= t2_len0[i], "wire: no octet of a request is written twice");
 			if (t2_removed[i]) {
-				__CPROVER_assert(t2_h[i].state != KSI_ASYNC_STATE_WAITING_FOR_DISPATCH, "queue: a request that left the queue is not waiting for dispatch any more (never lost)");
-				__CPROVER_assert((t2_state0[i] != KSI_ASYNC_STATE_WAITING_FOR_DISPATCH && t2_h[i].state == t2_state0[i] && t2_written[i] == 0)
-						|| (t2_h[i].state == KSI_ASYNC_STATE_WAITING_FOR_RESPONSE && t2_sent0[i] + t2_written[i] == t2_len0[i])
-						|| (t2_h[i].state == KSI_ASYNC_STATE_ERROR && t2_h[i].err != KSI_OK),
+				__CPROVER_assert(T2H(i).state != KSI_ASYNC_STATE_WAITING_FOR_DISPATCH, "queue: a request that left the queue is not waiting for dispatch any more (never lost)");
+				__CPROVER_assert((t2_state0[i] != KSI_ASYNC_STATE_WAITING_FOR_DISPATCH && T2H(i).state == t2_state0[i] && t2_written[i] == 0)
+						|| (T2H(i).state == KSI_ASYNC_STATE_WAITING_FOR_RESPONSE && t2_sent0[i] + t2_written[i] == t2_len0[i])
+						|| (T2H(i).state == KSI_ASYNC_STATE_ERROR && T2H(i).err != KSI_OK),
 						"queue: a request leaves only (a) written completely, now waiting for its response, (b) failed with an error code, or (c) because it was not waiting for dispatch at all");
 			} else {
-				__CPROVER_assert(t2_h[i].state == t2_state0[i] && t2_h[i].reqTime == t2_reqTime0[i] && t2_h[i].raw == t2_rawp[i] && t2_h[i].len == t2_len0[i], "queue: a request that stays queued is untouched (state, clock, payload)");
-				__CPROVER_assert(t2_h[i].sentCount == t2_sent0[i] + t2_written[i], "queue: the send cursor of a queued request counts exactly the octets written");
+				__CPROVER_assert(T2H(i).state == t2_state0[i] && T2H(i).reqTime == t2_reqTime0[i] && T2H(i).raw == t2_rawp[i] && T2H(i).len == t2_len0[i], "queue: a request that stays queued is untouched (state, clock, payload)");
+				__CPROVER_assert(T2H(i).sentCount == t2_sent0[i] + t2_written[i], "queue: the send cursor of a queued request counts exactly the octets written");
 				/* cursor invariant */
-				__CPROVER_assert(IMPLIES(i != t2_first, t2_h[i].sentCount == 0), "Inv: only the head request may be partly written");
-				__CPROVER_assert(IMPLIES(tcp.sockfd == KSI_INVALID_SOCKET || !tcp.socketReady, t2_h[i].sentCount == 0),
+				__CPROVER_assert(IMPLIES(i != t2_first, T2H(i).sentCount == 0), "Inv: only the head request may be partly written");
+				__CPROVER_assert(IMPLIES(tcp.sockfd == KSI_INVALID_SOCKET || !tcp.socketReady, T2H(i).sentCount == 0),
 						"Inv: connection ended => no queued request is left half-written (later requests travel, whole, on a fresh connection)");
 			}
 		} else {
-			__CPROVER_assert(t2_removed[i] == 0 && t2_released[i] == 0 && t2_written[i] == 0 && t2_h[i].state == t2_state0[i], "frame: handles outside the queue are untouched");
+			__CPROVER_assert(t2_removed[i] == 0 && t2_released[i] == 0 && t2_written[i] == 0 && T2H(i).state == t2_state0[i], "frame: handles outside the queue are untouched");
 		}
 	}
 	__CPROVER_assert(IMPLIES(tcp.sockfd != KSI_INVALID_SOCKET, t2_wire_partial == t2_head_cursor()),
@@ -113,12 +113,12 @@ static void t2_check_inv(void) {
 /* every request of the entry queue ended in the error state with this code, exactly once */
 static _Bool t2_all_failed_with(int err) {
 	size_t i; _Bool ok = (t2_qlen == 0);
-	for (i = 0; i < T2_QMAX; i++) if (i < t2_qlen0) ok = ok && t2_removed[i] == 1 && t2_h[i].state == KSI_ASYNC_STATE_ERROR && t2_h[i].err == err && t2_written[i] == 0;
+	for (i = 0; i < T2_QMAX; i++) if (i < t2_qlen0) ok = ok && t2_removed[i] == 1 && T2H(i).state == KSI_ASYNC_STATE_ERROR && T2H(i).err == err && t2_written[i] == 0;
 	return ok;
 }
 static _Bool t2_queue_untouched(void) {
 	size_t i; _Bool ok = (t2_qlen == t2_qlen0 && t2_first == t2_first0);
-	for (i = 0; i < T2_QMAX; i++) ok = ok && t2_removed[i] == 0 && t2_written[i] == 0 && t2_h[i].state == t2_state0[i] && t2_h[i].sentCount == t2_sent0[i];
+	for (i = 0; i < T2_QMAX; i++) ok = ok && t2_removed[i] == 0 && t2_written[i] == 0 && T2H(i).state == t2_state0[i] && T2H(i).sentCount == t2_sent0[i];
 	return ok;
 }
 static _Bool t2_no_descriptor_open(void) { size_t i; _Bool ok = 1; for (i = 0; i < T2_NFD; i++) ok = ok && t2_fd_state[i] != T2_OPEN; return ok; }
@@ -345,15 +345,15 @@ void harness(void) {
 	__CPROVER_assert(IMPLIES(!t2_peer_failed && !t2_env_failed, res == KSI_OK), "would-block results, throttling and send time-outs fail nothing at call level");
 	__CPROVER_assert(t2_listener_calls == ((t2_peer_failed && t2_has_listener) ? 1u : 0u), "listener hears 'disconnected' exactly when the connection ended");
 	for (i = 0; i < T2_QMAX; i++) if (i < t2_qlen0 && t2_removed[i]) {
-		if (t2_h[i].state == KSI_ASYNC_STATE_WAITING_FOR_RESPONSE && t2_state0[i] == KSI_ASYNC_STATE_WAITING_FOR_DISPATCH) {
+		if (T2H(i).state == KSI_ASYNC_STATE_WAITING_FOR_RESPONSE && t2_state0[i] == KSI_ASYNC_STATE_WAITING_FOR_DISPATCH) {
 			n_sent++;
 			__CPROVER_assert(t2_whole[i], "sent: the request's last octet went out in this call");
 			__CPROVER_assert(!spec_async_timed_out(t2_now0, t2_reqTime0[i], sto), "sent => its send time-out had not elapsed (clock is monotone: not even at the start of the call)");
-			__CPROVER_assert(t2_h[i].sndTime >= t2_now0 && t2_h[i].sndTime <= t2_now, "sent => the receive time-out clock starts at the time of sending");
-			__CPROVER_assert(t2_h[i].raw == NULL && t2_h[i].len == 0 && t2_h[i].sentCount == 0, "sent => serialized payload released, cursor reset");
-		} else if (t2_h[i].state == KSI_ASYNC_STATE_ERROR && t2_state0[i] == KSI_ASYNC_STATE_WAITING_FOR_DISPATCH) {
+			__CPROVER_assert(T2H(i).sndTime >= t2_now0 && T2H(i).sndTime <= t2_now, "sent => the receive time-out clock starts at the time of sending");
+			__CPROVER_assert(T2H(i).raw == NULL && T2H(i).len == 0 && T2H(i).sentCount == 0, "sent => serialized payload released, cursor reset");
+		} else if (T2H(i).state == KSI_ASYNC_STATE_ERROR && t2_state0[i] == KSI_ASYNC_STATE_WAITING_FOR_DISPATCH) {
 			n_timeout++;
-			__CPROVER_assert(t2_h[i].err == KSI_NETWORK_SEND_TIMEOUT, "failed in the send queue => send time-out is the cause");
+			__CPROVER_assert(T2H(i).err == KSI_NETWORK_SEND_TIMEOUT, "failed in the send queue => send time-out is the cause");
 			__CPROVER_assert(spec_async_timed_out(t2_now, t2_reqTime0[i], sto), "send time-out => the configured time has really elapsed (by the end of the call at the latest)");
 			__CPROVER_assert(t2_written[i] == 0, "send time-out => not an octet of the request is written in this call");
 		} else n_other++;
